@@ -70,7 +70,7 @@ def run(ctx):
         x, y = rng.uniform(1, nx - 2), rng.uniform(1, ny - 2)
         case = {'kind': info['kind'], 'info': info, 'history': [h[0] for h in hist],
                 'corrs': [[h[1].M.tolist(), h[1].t.tolist()] for h in hist if h[0] == 'S'], 'x': x, 'y': y}
-        ctx.case(case, nontrivial=bool(hist) or info['kind'] == 'sip', branch=info['kind'] + ':h%d' % len(hist))
+        ctx.case(case, nontrivial=bool(hist) or info['kind'] in ('sip', 'siplin'), branch=info['kind'] + ':h%d' % len(hist))
         ps = c.tanp_pixel_scale(x, y)
         ref = fd_scale(c, x, y)
         if not (abs(ps - ref) <= 1e-7 * ref):
@@ -88,7 +88,7 @@ def run(ctx):
             ctx.oracle_fail(case, {'what': 'tanp_center_pixel_scale != scale at the detector position of the '
                                            'tangent point', 'got': cps, 'want': cref, 'at': [cx, cy]})
         # units
-        if not jw and info['kind'] != 'sip':
+        if not jw and info['kind'] in ('cd', 'pc'):
             if abs(cps - 1.0) > 1e-9:
                 ctx.oracle_fail(case, {'what': 'FITS undistorted: centre scale is not 1 pixel', 'got': cps})
         if jw:
